@@ -54,7 +54,7 @@ package httpserver
 //@   loop 1 invariant (min == 0) == forall(k, 0, #i, hlim(k) == 0)
 //@   loop 1 invariant min > 0 ==> (exists(k, 0, #i, hlim(k) == min) && forall(k, 0, #i, hlim(k) > 0 ==> min <= hlim(k)))
 
-//@ unit response_buffer frames=on props=C12 filter=`httpserver\.(ResponseBuffer\)\.(WriteHeader|Write|Buffered)|forcedStatusCodeWriter\)\.WriteHeader)$`
+//@ unit response_buffer frames=on props=C12 filter=`httpserver\.(ResponseBuffer\)\.(WriteHeader|Write|Buffered|ReadFrom)|forcedStatusCodeWriter\)\.WriteHeader)$`
 //@ // the buffering writer used by `templates`: the header of the real writer is committed at most once, with the status the
 //@ // handler below chose; a buffered response is later sent with exactly that status (forcedStatusCodeWriter), whatever
 //@ // status http.ServeContent passes.
@@ -88,6 +88,29 @@ package httpserver
 //@   ensures [header_decided] rb.wroteHeader
 //@   ensures [commit_at_most_once] wh <= old(wh) + 1 && (old(rb.wroteHeader) ==> wh == old(wh))
 //@   ensures [implicit_200] !old(rb.wroteHeader) ==> rb.status == 200
+
+//@ // io.Copy path (ReaderFrom): the streaming decision is taken first (implicit 200), and the body goes where that decision
+//@ // says: straight to the client when streaming, into the buffer otherwise, never into the buffer of a response whose
+//@ // header has just been committed to the client.
+//@ ghost bufferedCopies int
+//@ ghost directCopies int
+//@ extern (*bytes.Buffer).ReadFrom
+//@   modifies ghost:bufferedCopies
+//@   ensures bufferedCopies == old(bufferedCopies) + 1
+//@ extern io.CopyBuffer
+//@   modifies ghost:directCopies
+//@   ensures directCopies == old(directCopies) + 1
+//@ extern invoke:(io.WriterTo).WriteTo
+//@   modifies ghost:directCopies
+//@   ensures directCopies == old(directCopies) + 1
+//@ extern (*sync.Pool).Get
+//@ extern (*sync.Pool).Put
+//@ func (*ResponseBuffer).ReadFrom
+//@   requires rb != nil && rb.ResponseWriterWrapper != nil && rb.ResponseWriterWrapper.ResponseWriter != nil && rb.shouldBuffer != nil && rb.Buffer != nil
+//@   modifies ghost:wh, ghost:lastStatus, ghost:bufferedCopies, ghost:directCopies, ResponseBuffer.wroteHeader, ResponseBuffer.status, ResponseBuffer.stream
+//@   ensures [header_decided] rb.wroteHeader
+//@   ensures [streaming_body_goes_to_the_client] rb.stream ==> (directCopies == old(directCopies) + 1 && bufferedCopies == old(bufferedCopies))
+//@   ensures [buffered_body_goes_to_the_buffer] !rb.stream ==> (bufferedCopies == old(bufferedCopies) + 1 && directCopies == old(directCopies))
 
 //@ unit redirect_handler frames=on props=C15 filter=`httpserver\.redirPlaintextHost\$1\$1$`
 //@ // the handler of a synthesised HTTP site: a permanent redirect to https on the same host (port stripped, the configured
